@@ -115,6 +115,11 @@ def parse_template(path):
                     meta['trusted'].append(tr)
         elif word == 'trusted':
             meta.setdefault('trusted', []).append(rest)
+        elif word == 'strlits':
+            # R38b: a distinctness lemma over string literals written in the TEMPLATE (a table taken from the specification)
+            pr = BT.findall(rest)
+            kv, _ = parse_kv(BT.sub('', rest))
+            items.append(('strlits', dict(lits=pr[1].split('|'), lemma=kv['lemma'], label=pr[0]), i))
         elif word == 'strconsts':
             pr = BT.findall(rest)
             kv, _ = parse_kv(BT.sub('', rest))
@@ -330,6 +335,7 @@ def extract_fn(repo, blk, meta, mode):
         item = X.split_or_arms(item, log)
     if blk.blockarms:
         item = X.wrap_arm_bodies(item, log)
+        item = X.desugar_str_match(item, log)
     for pat, rep in assoc:
         item, cnt = X.subst_tokens(item, pat, rep, log, 'R2')
         item = X.relex(item)
@@ -828,6 +834,27 @@ def generate(repo, template, mode=None, isolate=False):
     for it in items:
         if it[0] == 'text':
             em.emit_lines([(it[1], dict(kind='tmpl', tline=it[2]))])
+            continue
+        if it[0] == 'strlits':
+            kv_ = it[1]
+            org = dict(kind='tmpl', tline=it[2])
+            short = ' '.join(re.findall(r'\[C\d\d\.[^\]]+\]', kv_['label']))
+            ls = kv_['lits']
+            out = ['/// %s' % kv_['label'], 'pub proof fn %s()' % kv_['lemma'], '    ensures']
+            body = ['    reveal_strlit("%s");' % l for l in ls]
+            for a in range(len(ls)):
+                for b in range(a + 1, len(ls)):
+                    out.append('        "%s"@ != "%s"@,       // %s' % (ls[a], ls[b], short))
+                    if len(ls[a]) != len(ls[b]):
+                        body.append('    assert("%s"@.len() == %d && "%s"@.len() == %d);' % (ls[a], len(ls[a]), ls[b], len(ls[b])))
+                    else:
+                        d = [k for k in range(len(ls[a])) if ls[a][k] != ls[b][k]]
+                        if d:
+                            body.append('    assert("%s"@[%d] != "%s"@[%d]);' % (ls[a], d[0], ls[b], d[0]))
+            out.append('{')
+            out += body
+            out.append('}')
+            em.emit_lines([(l, org) for l in out])
             continue
         if it[0] == 'strconsts':
             r = extract_strconsts(repo, it[1], it[2])
